@@ -807,11 +807,23 @@ def runToken (r : Report) (s : Section) : Report := Id.run do
         r := r.addCover (if verb == "allow0" then "t-entry-Allow" else "t-entry-AllowCtx")
         let inst0 := d.sys.insts i
         let sent := inst0.alive && args.ctx.sends
-        let (r', c') := checkTrips r s.idx l.idx s!"{verb} inst={i}" d.conn rtTok sent
+        let (r', c') := checkTrips r s.idx l.idx s!"{verb} inst={i}" d.conn rtTok sent d.forged.isSome
         r := r'; d := { d with conn := c' }
         let obsOk := l.obs.headD "?"
         let implOk : Option Bool := if obsOk = "ok" then some true else if obsOk = "no" then some false else none
-        if inst0.alive && !args.ctx.sends then
+        let refusedByReply := match d.forged with
+          | some f => reserveOutcome args.ctx f.treply != .rescue
+          | none => false
+        if inst0.alive && args.ctx.sends && refusedByReply then
+          -- the server answers the EVALSHA itself with an integer / nil: only the integer 1 grants, nothing is touched
+          let f := d.forged.getD .nil
+          r := r.addCover "t-entry-reply-forged-refused"
+          let exp := reserveOutcome args.ctx f.treply == .grant
+          let model := s!"{if exp then "ok" else "no"} a=1 s={instFlags inst0} {tokDump c d.sys.store}"
+          if model ≠ impl then r := r.mismatch s.idx l.idx model impl
+          if obsOk = "ok" && !exp then
+            r := r.violation s.idx l.idx s!"token: {verb}: the server answered {f.describe} without running the script but the request was granted (only the integer reply 1 grants)"
+        else if inst0.alive && !args.ctx.sends then
           r := r.addCover (if ck = .cancelled then "t-entry-AllowCtx-cancelled" else "t-entry-AllowCtx-deadline-passed")
           let model := s!"no a=1 s={instFlags inst0} {tokDump c d.sys.store}"
           if model ≠ impl then r := r.mismatch s.idx l.idx model impl
@@ -819,7 +831,7 @@ def runToken (r : Report) (s : Section) : Report := Id.run do
             r := r.violation s.idx l.idx s!"token: AllowCtx with a context that is {if ck = .cancelled then "cancelled" else "past its deadline"} was answered [{obsOk}] (must be refused: the context has to reach the script call)"
           else if ((kv? l.obs "s").getD "1").startsWith "0" then
             r := r.violation s.idx l.idx s!"token: AllowCtx: a caller-side context error was taken for a store failure, inst={i} left the shared bucket ({(kv? l.obs "s").getD ""})"
-        else if inst0.alive && d.up then
+        else if inst0.alive && d.up && d.forged.isNone then
           -- store path: the second the script was given is the value it wrote to the timestamp key
           let tsTok := (kv? l.obs "ts").getD "-"
           match (tsTok.splitOn ":").headD "" |>.toNat? with
@@ -852,6 +864,7 @@ def runToken (r : Report) (s : Section) : Report := Id.run do
           -- decided by the instance's local limiter at a wall-clock instant between t0 and t1 that the harness cannot
           -- see: no decision is predicted; the flags are, and the local bound is monitored with the bracket as slack
           if inst0.alive then d := { d with sys := (d.sys.step true c (.lateFail i)).1 }
+          if inst0.alive && d.forged.isSome then r := r.addCover "t-entry-reply-string-goes-local"
           let model := s!"{obsOk} a={b2s inst0.alive} s={instFlags (d.sys.insts i)} {tokDump c d.sys.store}"
           if model ≠ impl then r := r.mismatch s.idx l.idx model impl
           r := r.addCover (if implOk = some true then "t-entry-rescue-grant" else "t-entry-rescue-deny")
